@@ -50,6 +50,13 @@ class MinMaxValue(GenericValue):
             # f-strings are not changed
             return
 
+        if self._ast_node is not None and contains_unmanaged(
+            self._old_value, self._ast_node
+        ):
+            # the bound is replaced as a whole, the parts which are
+            # controlled by the user (star-expressions ...) could not be kept
+            return
+
         new_token = value_to_token(self._new_value)
         if not self.cmp(self._old_value, self._new_value):
             flag = "fix"
